@@ -68,4 +68,5 @@ def main(tier):
     chk.run("R-ATTRAGREE", V.attragree, cx.repo, floor=5)
     chk.run("R-PRECOND", FL.precond, cx.repo, floor=3)
     chk.run("R-ELEMSIZE", V.elemsize, cx.repo, cx.schema, cx.sites, floor=4)
+    chk.run("R-ANONHOME", SY.anonhome, cx.repo, floor=1)
     return chk.finish()
